@@ -309,6 +309,8 @@ pub trait Kind<X: Item>: 'static {
     fn v_default() -> Self::V;
     fn v_from_iter<I: Iterator<Item = X>>(i: I) -> Self::V;
     fn v_into_iter(v: Self::V) -> Self::It;
+    /// the way a `for` loop obtains the iterator: through the trait, never an inherent method
+    fn v_into_iter_trait(v: Self::V) -> Self::It;
     fn v_slice(v: &Self::V, via: u8) -> &[X];
     fn v_slice_mut(v: &mut Self::V, via: u8) -> &mut [X];
     fn v_observe_debug(v: &Self::V) -> usize;
@@ -383,6 +385,7 @@ macro_rules! kind {
                 <Self::V as std::iter::FromIterator<X>>::from_iter(i)
             }
             fn v_into_iter(v: Self::V) -> Self::It { v.into_iter() }
+            fn v_into_iter_trait(v: Self::V) -> Self::It { IntoIterator::into_iter(v) }
             fn v_slice(v: &Self::V, via: u8) -> &[X] {
                 match via {
                     VIA_AS_SLICE => v.as_slice(),
